@@ -52,7 +52,7 @@ func TestC16Histories(t *testing.T) {
 				// a call whose result varies when it is repeated on fresh copies is
 				// not deterministic at all (C15/C20), not history dependent
 				varies := false
-				for r := 0; r < 5 && !varies; r++ {
+				for r := 0; r < 40 && !varies; r++ {
 					varies = run(fontcmp.DeepCopy(pristine), o) != alone
 				}
 				if varies {
